@@ -102,7 +102,23 @@ def okAll : List Edit → Doc → Bool
   | [], _ => true
   | e :: es, d => e.ok d && okAll es (e.apply d)
 
-/-! ## Information equality (executable version: sort by key, compare) -/
+/-! ## Information equality -/
+
+mutual
+/-- same element: same tag, the same attributes and namespace declarations in any order, same
+text and tail, children pairwise the same, in order -/
+def InfoEq : Elem → Elem → Prop
+  | .mk t1 n1 a1 x1 l1 k1, .mk t2 n2 a2 x2 l2 k2 =>
+    t1 = t2 ∧ n1.Perm n2 ∧ a1.Perm a2 ∧ x1 = x2 ∧ l1 = l2 ∧ InfoEqL k1 k2
+def InfoEqL : List Elem → List Elem → Prop
+  | [], [] => True
+  | a :: as, b :: bs => InfoEq a b ∧ InfoEqL as bs
+  | _, _ => False
+end
+
+def InfoEqDoc (a b : Doc) : Prop := a.pre = b.pre ∧ InfoEq a.root b.root ∧ a.post = b.post
+
+/-! ### executable version for the driver: sort by key, compare -/
 
 def insertKV (x : Str × Str) : List (Str × Str) → List (Str × Str)
   | [] => [x]
